@@ -6,43 +6,55 @@
 #include "archive_read_private.h"
 
 #define MAXB 4096
-static unsigned char *blk[MAXB]; static size_t blen[MAXB]; static int nblk, cur, term_err;
+#define MAXN 8
+struct node { unsigned char *blk[MAXB]; size_t blen[MAXB]; int nblk, cur; int last; };
+static struct node nodes[MAXN]; static int nnodes, term_err;
 static unsigned char *truth; static size_t tlen;
 static long long skips[256]; static int nskips, curskip, use_skip;
 static struct archive *a; static int opened;
 
 static ssize_t rd_cb(struct archive *x, void *d, const void **buf)
 {
-	(void)x; (void)d;
-	if (cur >= nblk) { if (term_err) { archive_set_error(a, 5, "scripted read error"); return -1; } return 0; }
-	*buf = blk[cur]; ssize_t n = (ssize_t)blen[cur]; cur++;
+	(void)x; struct node *nd = d;
+	if (nd->cur >= nd->nblk) {
+		if (nd->last && term_err) { archive_set_error(a, 5, "scripted read error"); return -1; }
+		return 0;     /* end of this data node */
+	}
+	*buf = nd->blk[nd->cur]; ssize_t n = (ssize_t)nd->blen[nd->cur]; nd->cur++;
 	return n;
 }
 
-/* drop k bytes from the blocks not yet delivered */
-static void drop_bytes(long long k)
+/* drop k bytes from the blocks of this node that were not delivered yet */
+static void drop_bytes(struct node *nd, long long k)
 {
-	while (k > 0 && cur < nblk) {
-		if ((size_t)k < blen[cur]) { blk[cur] += k; blen[cur] -= (size_t)k; return; }
-		k -= (long long)blen[cur]; cur++;
+	while (k > 0 && nd->cur < nd->nblk) {
+		if ((size_t)k < nd->blen[nd->cur]) { nd->blk[nd->cur] += k; nd->blen[nd->cur] -= (size_t)k; return; }
+		k -= (long long)nd->blen[nd->cur]; nd->cur++;
 	}
 }
 
-static size_t src_left(void) { size_t t = 0; for (int i = cur; i < nblk; i++) t += blen[i]; return t; }
+static size_t src_left(struct node *nd) { size_t t = 0; for (int i = nd->cur; i < nd->nblk; i++) t += nd->blen[i]; return t; }
 
-/* script entry g >= 0: well-behaved skipper, skips min(g, request, what is left);
+/* script entry g >= 0: well-behaved skipper, skips min(g, request, what is left in this node);
  * -999: answers more than asked; other negatives: error code */
 static int64_t skip_cb(struct archive *x, void *d, int64_t request)
 {
-	(void)x; (void)d;
+	(void)x; struct node *nd = d;
 	if (curskip >= nskips) return 0;
 	long long g = skips[curskip++];
 	if (g == -999) return request + 1;
 	if (g < 0) return g;
 	if (g > request) g = request;
-	if ((size_t)g > src_left()) g = (long long)src_left();
-	drop_bytes(g);
+	if ((size_t)g > src_left(nd)) g = (long long)src_left(nd);
+	drop_bytes(nd, g);
 	return g;
+}
+
+static void add_truth(struct node *nd)
+{
+	size_t tot = 0; for (int i = 0; i < nd->nblk; i++) tot += nd->blen[i];
+	truth = realloc(truth, tlen + tot + 1);
+	for (int i = 0; i < nd->nblk; i++) { memcpy(truth + tlen, nd->blk[i], nd->blen[i]); tlen += nd->blen[i]; }
 }
 
 static void flags(void)
@@ -52,7 +64,7 @@ static void flags(void)
 	printf(" pos=%lld eof=%d fatal=%d\n", (long long)r->filter->position, r->filter->end_of_file ? 1 : 0, r->filter->fatal ? 1 : 0);
 }
 
-static void r_begin(void) { nblk = cur = term_err = 0; nskips = curskip = 0; use_skip = 0; a = NULL; opened = 0; truth = NULL; tlen = 0; }
+static void r_begin(void) { memset(nodes, 0, sizeof nodes); nnodes = 0; term_err = 0; nskips = curskip = 0; use_skip = 0; a = NULL; opened = 0; truth = NULL; tlen = 0; }
 
 static void r_op(char *line)
 {
@@ -60,10 +72,15 @@ static void r_op(char *line)
 	int n = vh_split(line, w, MAXB + 8);
 	if (n >= 2 && !strcmp(w[0], "src")) {
 		term_err = !strcmp(w[1], "err");
-		size_t tot = 0;
-		for (int i = 2; i < n && nblk < MAXB; i++) { blk[nblk] = vh_unhex(w[i], &blen[nblk]); tot += blen[nblk]; nblk++; }
-		truth = malloc(tot ? tot : 1); tlen = 0;
-		for (int i = 0; i < nblk; i++) { memcpy(truth + tlen, blk[i], blen[i]); tlen += blen[i]; }
+		struct node *nd = &nodes[0]; nnodes = 1; nd->last = 1;
+		for (int i = 2; i < n && nd->nblk < MAXB; i++) { nd->blk[nd->nblk] = vh_unhex(w[i], &nd->blen[nd->nblk]); nd->nblk++; }
+		add_truth(nd);
+		printf("ok\n");
+	} else if (n >= 1 && !strcmp(w[0], "node") && nnodes >= 1 && nnodes < MAXN) {
+		/* a further data node of a multi-volume set */
+		struct node *nd = &nodes[nnodes]; nodes[nnodes - 1].last = 0; nd->last = 1; nnodes++;
+		for (int i = 1; i < n && nd->nblk < MAXB; i++) { nd->blk[nd->nblk] = vh_unhex(w[i], &nd->blen[nd->nblk]); nd->nblk++; }
+		add_truth(nd);
 		printf("ok\n");
 	} else if (n >= 1 && !strcmp(w[0], "skips")) {
 		use_skip = 1;
@@ -73,7 +90,8 @@ static void r_op(char *line)
 		a = archive_read_new();
 		archive_read_support_format_raw(a);
 		archive_read_support_format_empty(a);
-		archive_read_set_callback_data(a, NULL);
+		archive_read_set_callback_data(a, &nodes[0]);
+		for (int i = 1; i < nnodes; i++) archive_read_append_callback_data(a, &nodes[i]);
 		archive_read_set_read_callback(a, rd_cb);
 		if (use_skip) archive_read_set_skip_callback(a, skip_cb);
 		int r = archive_read_open1(a);
